@@ -24,6 +24,8 @@ pub struct EnumCfg {
   pub guard_vals: Vec<u8>,
   /// allow a task to require itself / any task (cycles)
   pub self_req: bool,
+  /// every body starts with this statement (not counted in the size bounds)
+  pub mandatory_first: Option<Op>,
 }
 
 impl EnumCfg {
@@ -31,11 +33,12 @@ impl EnumCfg {
     EnumCfg {
       n_tasks, n_res, max_total, max_per_task: max_total,
       ocs: vec![OC::Equals], read_rcs: vec![RC::Exact], write_rcs: vec![RC::Exact], srcs: vec![Src::Acc, Src::One],
-      write_decl: false, panic_op: false, guards: true, guard_vals: vec![0, 1, 2], self_req: true,
+      write_decl: false, panic_op: false, guards: true, guard_vals: vec![0, 1, 2], self_req: true, mandatory_first: None,
     }
   }
   pub fn describe(&self) -> String {
-    format!("N={} R={} K<={} ocs={:?} read_rcs={:?} write_rcs={:?} srcs={:?} write_decl={} panic={} guards={}",
+    format!("{}N={} R={} K<={} ocs={:?} read_rcs={:?} write_rcs={:?} srcs={:?} write_decl={} panic={} guards={}",
+      match &self.mandatory_first { Some(op) => format!("every body starts with {:?} (+K more statements) ", op), None => String::new() },
       self.n_tasks, self.n_res, self.max_total, self.ocs, self.read_rcs, self.write_rcs, self.srcs, self.write_decl, self.panic_op, if self.guards { format!("{:?}", self.guard_vals) } else { "none".into() })
   }
 }
@@ -94,7 +97,13 @@ fn bodies(cfg: &EnumCfg, t: Tid, len: usize) -> Vec<Vec<Stmt>> {
     }
   }
   let mut out = Vec::new();
-  go(cfg, &ops(cfg, t), len, 0b001, &mut Vec::new(), &mut out);
+  match &cfg.mandatory_first {
+    None => go(cfg, &ops(cfg, t), len, 0b001, &mut Vec::new(), &mut out),
+    Some(op) => {
+      let mut cur = vec![Stmt { guard: None, op: *op }];
+      go(cfg, &ops(cfg, t), len + 1, effect(op, 0b001), &mut cur, &mut out);
+    }
+  }
   out
 }
 
